@@ -44,7 +44,7 @@ def run(ctx):
     rng = random.Random(ctx["seed"])
     quick = ctx["tier"] == "quick"
     res = vlib.Result()
-    res.rule = ("(1) random worker scripts of 1-5 phases (0..2000 increments each, optional yields and sleeps of 0-2 ms) against the real "
+    res.rule = ("(1) random worker scripts of 1-5 phases (0..2000 increments each, optional yields and sleeps of 0-2 ms; Add of 2^31..2^62) against the real "
                 "meter with ticker periods 1us..1ms; (2) --progress vs --no-progress on generated repositories; non-trivial = distinct "
                 "script or repository; progress frames recorded are counted in the evidence")
     reqs, phases_l = [], []
@@ -92,7 +92,32 @@ def run(ctx):
             res.violations.append(vlib.Violation("recorded meter output is not (sorted progress frames <= n, then exactly one final frame with n) per phase",
                                                  {"script": req, "phases": phases}, expected="accepted by Meter.accepts",
                                                  observed=[list(map(str, f)) for f in frames[:60]]))
-    res.coverage_extra["meter_scripts"] = len(reqs)
+    # counts that do not fit 31 / 32 / 53 bits (reached with Add, crossed with Inc while frames are drawn).  The meter model
+    # counts in unary, so these are judged here by the same rule: per phase, progress frames sorted and <= n, then one final
+    # frame carrying exactly n
+    big_reqs, big_phases = [], []
+    for big in (2**31 - 10, 2**32 - 10, 2**32, 2**33 + 7, 2**53 + 1, 2**62):
+        for ops, phases in ((["S1", "A%d" % big, "Y30", "W300000", "I5", "D"], [(1, big + 35)]),
+                            (["S2", "I3", "A%d" % big, "W200000", "D", "S3", "A7", "D"], [(2, big + 3), (3, 7)])):
+            big_reqs.append("meter %d %s" % (50000, ",".join(ops)))
+            big_phases.append(phases)
+    for req, phases, a in zip(big_reqs, big_phases, vlib.batch(ctx["bins"]["api"], big_reqs, timeout=300)):
+        frames = parse_frames(bytes.fromhex(a) if a != "-" else b"")
+        res.case(req, True)
+        ok, i = True, 0
+        for f, n in phases:
+            last = 0
+            while i < len(frames) and frames[i][0] == "P" and frames[i][1] == f:
+                ok = ok and last <= frames[i][2] <= n
+                last = frames[i][2]
+                i += 1
+            ok = ok and i < len(frames) and frames[i] == ("F", f, n)
+            i += 1
+        if not ok or i != len(frames):
+            res.violations.append(vlib.Violation("recorded meter output is not (sorted progress frames <= n, then exactly one final frame with n) per phase",
+                                                 {"script": req, "phases": phases}, expected="final frames %r" % phases,
+                                                 observed=[list(map(str, f)) for f in frames[:40]]))
+    res.coverage_extra["meter_scripts"] = len(reqs) + len(big_reqs)
     res.coverage_extra["frames_recorded"] = frames_total
     res.coverage_extra["progress_frames_recorded"] = prog_total
     # ---- (2) CLI
